@@ -245,6 +245,93 @@ fn history_case(prop: &str, steps: Vec<Step>, root: &Path, idx: u64) -> CaseRec 
     }
 }
 
+/// options that change how the shell treats its own commands, switched on in one test case: the test cases after it
+/// must behave as they do in one session -- in particular scrut's own persist hook has to survive the option
+/// (`set -e`: a command of the hook that returns non-zero ends it before the state is written and replaces the
+/// exit code of the test case).
+const OPTIONS: [&str; 12] = ["set -e", "set -u", "set -o pipefail", "set -e -o pipefail", "set -eu", "set -f", "set -C", "set -E", "set -T", "shopt -s nullglob", "shopt -s failglob", "shopt -s extglob; set -e"];
+
+fn option_case(prop: &str, idx: u64, root: &Path) -> CaseRec {
+    let opt = OPTIONS[(idx as usize) % OPTIONS.len()];
+    // the second half switches extglob off again after it was on (the hook lists that option separately)
+    let pre = if idx as usize >= OPTIONS.len() { "shopt -s extglob" } else { "true" };
+    let show = "set -o | grep -E '^(errexit|nounset|pipefail|noglob|noclobber|errtrace|functrace) '; shopt -p nullglob failglob extglob || true";
+    let exprs: Vec<String> = vec![pre.to_string(), format!("shopt -u extglob; {opt}"), "echo hi".into(), "X=kept".into(), format!("echo \"$X\"; {show}"), "(exit 3)".into(), "echo after".into()];
+    let dir = root.join(format!("o-{idx}"));
+    let _ = std::fs::remove_dir_all(&dir);
+    let (wa, wb, tmp, tmpb) = (dir.join("a/work"), dir.join("b/work"), dir.join("tmp"), dir.join("tmpb"));
+    for d in [&wa, &wb, &tmp, &tmpb] {
+        std::fs::create_dir_all(d).unwrap();
+    }
+    let errexit = opt.contains("-e");
+    // (a) per process
+    let tcs: Vec<TestCase> = exprs
+        .iter()
+        .enumerate()
+        .map(|(i, e)| TestCase { title: format!("o{i}"), shell_expression: e.clone(), expectations: vec![], exit_code: None, line_number: i + 1, config: TestCaseConfig { environment: [("TMPDIR".to_string(), tmp.to_string_lossy().to_string())].into_iter().collect(), ..TestCaseConfig::default_markdown() } })
+        .collect();
+    let refs: Vec<&TestCase> = tcs.iter().collect();
+    let ex = StatefulExecutor::new(BashRunner::stateful_generator(&bash()));
+    let ctx = Context { work_directory: wa.clone(), temp_directory: tmp.clone(), file: PathBuf::from("doc.md"), config: DocumentConfig::default_markdown() };
+    let a: Result<Vec<String>, String> = match guarded(|| ex.execute_all(&refs, &ctx)) {
+        Err(p) => Err(format!("panic: {p}")),
+        Ok(Err(e)) => Err(format!("error: {e}")),
+        Ok(Ok(outs)) => Ok(outs.iter().map(|o| format!("{}[{}]", String::from_utf8_lossy(&(&o.stdout).to_bytes()), o.exit_code)).collect()),
+    };
+    // (b) one session; under errexit the session would end at `(exit 3)`: there each command is its own test case, and
+    // what one session says is known: the command ends the shell with 3, nothing is carried further
+    let mut script = String::from("shopt -s expand_aliases\n");
+    let upto = if errexit { 5 } else { exprs.len() };
+    for (i, e) in exprs.iter().take(upto).enumerate() {
+        script.push_str(&format!("{e}\necho \"@@MARK {i} $?\"\n"));
+    }
+    let out = std::process::Command::new(bash()).current_dir(&wb).env("TMPDIR", &tmpb).stdin(std::process::Stdio::piped()).stdout(std::process::Stdio::piped()).stderr(std::process::Stdio::null()).spawn().and_then(|mut c| {
+        use std::io::Write;
+        c.stdin.take().unwrap().write_all(script.as_bytes())?;
+        c.wait_with_output()
+    });
+    let mut b: Vec<String> = vec![];
+    if let Ok(out) = out {
+        let text = String::from_utf8_lossy(&out.stdout).to_string();
+        let mut cur = String::new();
+        for line in text.split_inclusive('\n') {
+            if let Some(rest) = line.strip_prefix("@@MARK ") {
+                b.push(format!("{}[{}]", cur, rest.trim().split(' ').nth(1).unwrap_or("?")));
+                cur.clear();
+            } else {
+                cur.push_str(line);
+            }
+        }
+    }
+    let mut fails = vec![];
+    match &a {
+        Err(e) => fails.push(("C12:executor-error".into(), format!("option {opt:?}: per-process execution failed: {e}"))),
+        Ok(a) => {
+            let cmp = a.len().min(upto);
+            if a[..cmp] != b[..cmp.min(b.len())] {
+                let first = a.iter().zip(b.iter()).position(|(x, y)| x != y).unwrap_or(0);
+                fails.push(("C12:state-differs-from-single-session".to_string(), format!("after `{opt}` (test cases {:?}): test case {first} gives {:?} per process, {:?} in one session", exprs, a.get(first), b.get(first))));
+            }
+            if errexit {
+                // `(exit 3)` ends with 3 (and, under errexit, ends the shell: nothing new to carry); the next test case
+                // starts from the state persisted before and runs
+                if a.get(5).map(|s| s.as_str()) != Some("[3]") || a.get(6).map(|s| s.as_str()) != Some("after\n[0]") {
+                    fails.push(("C12:state-differs-from-single-session".to_string(), format!("after `{opt}`: `(exit 3)` and `echo after` give {:?} and {:?}", a.get(5), a.get(6))));
+                }
+            }
+        }
+    }
+    let _ = std::fs::remove_dir_all(&dir);
+    CaseRec {
+        // the option semantics of bash are not modelled: judged against one real session only
+        op: format!("oracle-only shopt case=option.{idx}"),
+        impl_out: "oracle-only".into(),
+        oracle_fail: keep(prop, fails),
+        nontrivial: true,
+        tags: vec![format!("class=option:{opt}")],
+    }
+}
+
 pub fn run(ctx: &Ctx, prop: &str) {
     let root = std::env::temp_dir().join(format!("scrut-verif-shell-{}", std::process::id()));
     std::fs::create_dir_all(&root).unwrap();
@@ -269,15 +356,27 @@ pub fn run(ctx: &Ctx, prop: &str) {
         let steps: Vec<Step> = (0..len).map(|_| rng.pick(&p2).clone()).collect();
         Some(history_case(prop, steps, &r2, 100_000 + idx))
     });
+    let r2 = root.clone();
+    ctx.run_stream("options-then-plain-exhaustive", 2 * OPTIONS.len() as u64, true, |idx| Some(option_case(prop, idx, &r2)));
     let _ = std::fs::remove_dir_all(&root);
 }
 
 pub fn replay(prop: &str, op: &str) -> bool {
     let parts: Vec<&str> = op.split_whitespace().collect();
+    std::env::set_var("SCRUT_VERIF_INHERITED", "inherited-value");
+    if let Some(idx) = parts.last().and_then(|l| l.strip_prefix("case=option.")).and_then(|i| i.parse::<u64>().ok()) {
+        let root = std::env::temp_dir().join(format!("scrut-verif-shell-replay-{}", std::process::id()));
+        std::fs::create_dir_all(&root).unwrap();
+        let c = option_case(prop, idx, &root);
+        for (cl, d) in &c.oracle_fail {
+            println!("oracle-failure {cl}: {d}");
+        }
+        let _ = std::fs::remove_dir_all(&root);
+        return c.oracle_fail.is_empty();
+    }
     if parts.len() != 3 {
         return false;
     }
-    std::env::set_var("SCRUT_VERIF_INHERITED", "inherited-value");
     let pool = step_pool();
     let steps: Vec<Step> = parts[2]
         .split(',')
